@@ -139,6 +139,7 @@ Definition sstep (fl : flavour) (clk : nat -> Z) (e : senv) (o : op) : senv * li
            [(call_lat_key cc, sat64 (clk (e_clk e) - st))])
       | None => (e, [])
       end
+  | OTimerRefused _ _ => (e, [])
   end.
 
 Fixpoint sfold (fl : flavour) (clk : nat -> Z) (e : senv) (ops : list op) : senv * list (key * Z) :=
@@ -696,7 +697,7 @@ Lemma step_sim fl clk s e acc o :
   DelI fl (step sz fl clk s o) (acc ++ snd (sstep fl clk e o)).
 Proof.
   intros HS HD. pose proof HS as [Hsc Hth Hnh Hsw Hca Hck Hrg Hex].
-  destruct o as [i p|i t|i n|t d| |t|i n spec|h|w|i n|c b|i|c|x b]; cbn [step sstep].
+  destruct o as [i p|i t|i n|t d| |t|i n spec|h|w|i n|c b|i|c|x b|i n]; cbn [step sstep].
   - (* SubScope *)
     rewrite Hsc. destruct (nth_error (e_scopes e) i) as [sc|]; cbn [fst snd]; rewrite app_nil_r; [|auto].
     split; [constructor; cbn; auto; now rewrite ?Hsc, ?Hrg|].
@@ -838,6 +839,8 @@ Proof.
     + pose proof (Sim_ext _ _ _ HS1 (Ext_trans _ _ _ HE HE3)) as [Hsc' Hth' Hnh' Hsw' Hca' Hck' Hrg' Hex'].
       constructor; cbn; auto.
     + eapply (DelI_same _ _ _ _); [| | |exact HD3]; reflexivity.
+  - (* a refused allocation *)
+    cbn [fst snd]. rewrite app_nil_r. auto.
 Qed.
 
 Lemma fold_sim fl clk ops s e acc :
@@ -996,7 +999,7 @@ Proof.
   assert (forall s' : state, sws s' = sws s -> hhand s' = hhand s ->
             (exists x, sws s' = sws s ++ x) /\ (exists y, hhand s' = hhand s ++ y)) as Hsame.
   { intros s' H1 H2. split; exists []; now rewrite app_nil_r. }
-  destruct o as [i p|i t|i n|t d| |t|i n spec|h|w|i n|c b|i|c|x b]; cbn [step].
+  destruct o as [i p|i t|i n|t d| |t|i n spec|h|w|i n|c b|i|c|x b|i n]; cbn [step].
   - destruct (nth_error (scopes s) i); apply Hsame; reflexivity.
   - destruct (nth_error (scopes s) i); apply Hsame; reflexivity.
   - destruct (nth_error (scopes s) i); [|apply Hsame; reflexivity].
@@ -1025,6 +1028,7 @@ Proof.
   - destruct (nth_error (calls s) c); apply Hsame; reflexivity.
   - destruct (nth_error (execs s) x) as [[[c [[ce cs] ti]] st]|]; [|apply Hsame; reflexivity].
     apply Hsame; cbn; [rewrite (proj1 (deliver_frame _ _ _ _)) | rewrite (proj2 (deliver_frame _ _ _ _))]; reflexivity.
+  - apply Hsame; reflexivity.
 Qed.
 
 Ltac xframe_tac :=
@@ -1046,7 +1050,7 @@ Lemma step_execs fl clk s o : exists z, execs (step sz fl clk s o) = execs s ++ 
 Proof.
   assert (forall s' : state, execs s' = execs s -> exists z, execs s' = execs s ++ z) as Hsame.
   { intros s' H1. exists []; now rewrite app_nil_r. }
-  destruct o as [i p|i t|i n|t d| |t|i n spec|h|w|i n|c b|i|c|x b]; cbn [step].
+  destruct o as [i p|i t|i n|t d| |t|i n spec|h|w|i n|c b|i|c|x b|i n]; cbn [step].
   - destruct (nth_error (scopes s) i); apply Hsame; reflexivity.
   - destruct (nth_error (scopes s) i); apply Hsame; reflexivity.
   - destruct (nth_error (scopes s) i); [|apply Hsame; reflexivity]. apply Hsame; cbn; apply get_timer_execs.
@@ -1066,6 +1070,7 @@ Proof.
   - destruct (nth_error (calls s) c); [|apply Hsame; reflexivity]. eexists; reflexivity.
   - destruct (nth_error (execs s) x) as [[[c [[ce cs] ti]] st]|]; [|apply Hsame; reflexivity].
     apply Hsame; cbn. now rewrite deliver_execs.
+  - apply Hsame; reflexivity.
 Qed.
 Lemma fold_execs fl clk ops s : exists z, execs (fold_left (step sz fl clk) ops s) = execs s ++ z.
 Proof.
